@@ -23,6 +23,10 @@ val parse_primary : itok -> lit * prim option
 
 val fold_minus : bool -> lit -> lit
 
+val lint_max : coq_Z -> prim -> coq_Z
+
+val lint_on : coq_Z -> lit -> prim -> bool
+
 val lint : lit -> prim -> bool
 
 val const_int : coq_Z -> coq_Z -> bool -> coq_Z
